@@ -10,7 +10,11 @@ NTFNSIM_STUB = {
     "chain backend (bitcoind/btcd/neutrino notifier, block source, historical rescans)": "simulator: block-list chain over a universe of <= 6 transactions / <= 4 outpoints (real wire.MsgTx / btcutil.Block objects), rescans computed on the simulator's own chain at scan time and delivered later, never recomputed",
     "notification clients": "simulator: prompt clients (drain their channels after every notifier call) and lazy clients (read at drawn moments; the simulator only looks at channel occupancy in between)",
     "goroutines / blocking": "every notifier call runs in its own goroutine inside a testing/synctest bubble; a call that blocks on a client channel is detected deterministically",
-    "ProcessRelevantSpendTx, mempool spend notifier, block epochs, the concrete bitcoind/btcd/neutrino notifiers": "not simulated",
+    "chainntnfs.RewindChain / HandleMissedBlocks / GetCommonBlockAncestorHeight / getMissedBlocks / GetClientMissedBlocks (chainntnfs/interface.go)": "real, unmodified (arms backend-glue, backend-glue-faulty): every connect/disconnect of those arms reaches the TxNotifier through them",
+    "notificationDispatcher loop of the concrete notifier (bitcoindnotify/bitcoind.go: case chain.BlockConnected / chain.BlockDisconnected, handleBlockConnected, maintenance of b.bestBlock, backendStoresReorgs=true)": "STUB: a simulator-side mirror of that unexported control flow (ntfnsim/glue.go dispBlockConnected / dispHandleBlockConnected / dispBlockDisconnected), statement by statement incl. 'bestBlock is only taken from the return value on error' and 'continue out'; registrations, epochs clients, mempool handling of the loop are not mirrored",
+    "chainntnfs.ChainConn (GetBlockHeader, GetBlockHeaderVerbose, GetBlockHash) + GetBlock": "simulator: answered from the simulator's CURRENT block-list chain; headers/blocks of reorged-out blocks stay available by hash (as bitcoind keeps them); unknown hash / height out of range are permanent errors; each RPC may fail transiently by tape decision (fault_backend_rpc_error)",
+    "bitcoind's notifications": "simulator: one BlockConnected/BlockDisconnected per chain change, in order, each possibly lost (fault_backend_missed_notification), delivered at once or (GlueAsync runs) after further chain events",
+    "ProcessRelevantSpendTx, mempool spend notifier, delivery of block epochs, the btcd/neutrino notifiers": "not simulated",
 }
 NTFNSIM_ASSUME = [
     "blocks that have ever had >= reorgSafetyLimit confirmations are never disconnected (limit drawn from {3,4,5,8}); at most limit-1 blocks are disconnected in a row",
@@ -19,6 +23,8 @@ NTFNSIM_ASSUME = [
     "script requests that are matched by more than one transaction at once (address reuse) keep only the safety checks (which transaction 'the' confirmation is stays open)",
     "no chain changes while the node is down; a persisted hint is only relied upon if the request was registered whenever the chain was rolled back below it (otherwise = reorg while offline)",
     "a historical rescan does not outlive the maturity (burial past the safety limit) of the request it was dispatched for",
+    "backend-glue arms with faults or delayed notifications: a reorg is ONE chain event (d < limit blocks out, d+1 or d+2 in), as in bitcoind, so the backend's RPCs never answer from a chain shorter than one they showed before; single-block disconnect events only occur in the fault-free, immediately-delivering backend-glue runs",
+    "backend faults are transient (the next RPC works), at most 3 RPC failures and 3 lost notifications per run, and stop before the end of the run; lnd is given limit+2 further announced blocks to catch up",
     "bbolt transaction atomicity and durability are trusted",
     "a clean batch is evidence, not proof: histories are sampled from a seeded PRNG",
 ]
@@ -32,14 +38,31 @@ _CHECK = dict(
          "delivers the (possibly stale) answer, ConnectTip and NotifyHeight split by client calls, restart on the same hint database, "
          "injected hint-write failure / crash; after every notifier call every event a client receives is judged against the block-list "
          "model, after every settled step the told/due and hint predicates are evaluated, at the end every rescan is answered, the node "
-         "restarts once more and every client must learn the state of the active chain again. non-trivial = a reorg notice was observed "
-         "AND a renewed confirmation/spend was observed after it (faulty arm: and a fault fired); distinct = distinct event-trace hash",
+         "restarts once more and every client must learn the state of the active chain again. Arms backend-glue / backend-glue-faulty "
+         "(25% of the runs, selected by the last configuration draws; 2/3 of them faulty, half of them with delayed notification "
+         "delivery): the simulator changes its chain (connect; disconnect; with faults/delays: atomic reorg d out, d+1..d+2 in), emits "
+         "bitcoind's BlockConnected/BlockDisconnected notifications (lost with 1/5..1/12, <=3 per run) to a mirror of bitcoind.go's "
+         "dispatcher, which applies them with the real RewindChain/HandleMissedBlocks over a ChainConn that fails transiently (1/6..1/16 "
+         "per RPC, <=3 per run); block-epoch backlog queries through the real GetClientMissedBlocks. While the dispatcher is behind the "
+         "chain only the safety clauses are judged, whenever it stands at the tip (and at the end, after faults stop, pending "
+         "notifications are delivered and at most limit+2 further blocks are announced: it MUST, else backend-never-catches-up) the full "
+         "settled-state oracle runs and the blocks fed to the TxNotifier must be the active chain (notifier-chain-diverged). Runs with "
+         "atomic reorgs have 3/5 of the step budget (a reorg step is up to 2*limit chain events). "
+         "non-trivial = a reorg notice was observed AND a renewed confirmation/spend was observed after it (faulty arms: and a fault "
+         "fired); distinct = distinct event-trace hash",
     states_measure="distinct (tip-base, blocks disconnected in a row, clients holding a notification, outstanding rescans, epoch) tuples",
     expected_probes=["probe_deep_reorg", "probe_split_connect", "probe_done", "probe_stale_rescan_answer", "probe_stale_rescan_delivered",
                      "probe_rescan_failed", "probe_lazy_notice_sent", "probe_script_reuse", "probe_bad_client_hint", "probe_orphan_details",
-                     "probe_hint_frozen_above_tip", "probe_unwatched_reorg", "fault_crash", "fault_write_fail", "restart"],
+                     "probe_hint_frozen_above_tip", "probe_unwatched_reorg", "fault_crash", "fault_write_fail", "restart",
+                     "fault_backend_rpc_error", "fault_backend_missed_notification", "probe_glue_handle_missed_blocks",
+                     "probe_glue_missed_blocks_replayed", "probe_glue_missed_disconnects", "probe_glue_partial_rewind",
+                     "probe_glue_connected_ntfn_abandoned", "probe_glue_best_not_in_view", "probe_glue_lagging", "probe_glue_recovered",
+                     "probe_glue_lag_judged", "probe_glue_catchup_block", "probe_glue_ntfn_delayed", "probe_glue_deep_reorg",
+                     "probe_glue_epoch_backlog", "probe_glue_epoch_backlog_reorged_client", "probe_glue_stale_best_after_rewind",
+                     "probe_glue_junction_foreign-best", "glue_caught_up_at_end"],
     real_vs_stub=NTFNSIM_STUB, assumptions=NTFNSIM_ASSUME,
-    determinism="call-driven engine inside a synctest bubble (one notifier call at a time, run to completion or durable block): identical "
+    determinism="call-driven engine inside a synctest bubble (one notifier call at a time, run to completion or durable block; the glue "
+                "functions run inside such a call and draw their RPC faults from the tape while the scheduler goroutine waits): identical "
                 "seed gives identical event log; self-test /verif/sim/ntfnsim/selftest_determinism.sh (3 seeds x 3 processes x GOMAXPROCS 1/16/2)",
     # ./check adds these for build="gotest": run_args=["-test.run=^TestRun$", "-test.timeout=0"]
 )
@@ -47,6 +70,8 @@ _CHECK = dict(
 ENGINE = {"name": "ntfnsim", "path": "/verif/sim/ntfnsim", "serves_properties": ["C14"],
           "kind_free_text": "real chainntnfs.TxNotifier + real channeldb.HeightHintCache on SimKV, driven by a simulated chain backend "
                             "(block-list model, reorgs, late/stale rescan answers), prompt and lazy clients, restarts, hint-write faults; "
+                            "backend-glue arms: real RewindChain/HandleMissedBlocks/GetClientMissedBlocks under a mirrored bitcoind dispatcher, "
+                            "a ChainConn with transient RPC failures and lost block notifications; "
                             "synctest bubble for deterministic detection of blocked sends"}
 
 _TEXT = dict(
@@ -62,13 +87,20 @@ _TEXT = dict(
                "holds the notification of that block; a client whose rescan is answered (or whose tx was mined after it registered) holds "
                "the notification as soon as the model says N confirmations were reached; Updates carry the model's count; Done only past "
                "the safety limit; the persisted hint never lies above the height where the request is confirmed/spent, and the rescan range "
-               "lnd asks for after a restart covers that height. Exploration is the right level: the history space is unbounded and the "
+               "lnd asks for after a restart covers that height. Backend-glue arms: the same chain events reach the TxNotifier through "
+               "the shared glue of chainntnfs/interface.go under transient RPC failures and lost notifications; while the dispatcher "
+               "lags, every Confirmed/Spend must name a block that was part of the chain at some time and contains the request at the "
+               "named place, never two without a reorg notice between; when it stands at the tip (it must, a bounded number of blocks "
+               "after the faults stop) its best block is the tip, the blocks it fed the TxNotifier are the active chain, and every "
+               "client holds exactly what the model says; a block-epoch backlog is the active chain from the common ancestor on. "
+               "Exploration is the right level: the history space is unbounded and the "
                "oracle is history independent.",
     level_note="Trusted: bbolt atomicity; the simulator's 150-line chain model; testing/synctest for blocked-send detection. Not covered: "
-               "ProcessRelevantSpendTx, the mempool notifier, the concrete bitcoind/btcd/neutrino glue (only its observable behaviour "
-               "'scan own chain, deliver later, drop on error' is modelled), reorgs while the node is down, rescans that outlive a "
+               "ProcessRelevantSpendTx, the mempool notifier, the unexported dispatcher loops of the concrete notifiers (the bitcoind "
+               "one is mirrored, not executed; historical rescans are modelled as 'scan own chain, deliver later, drop on error'), "
+               "reorgs while the node is down, rescans that outlive a "
                "request's maturity. Lazy clients are judged on what they finally read and on channel occupancy, not on Updates. "
-               "Five structural findings on the unchanged tree are registered as known findings (see KNOWN_FINDINGS); runs that hit one "
+               "Eight structural findings on the unchanged tree are registered as known findings (see KNOWN_FINDINGS); runs that hit one "
                "end there, all other runs are judged in full.",
 )
 
@@ -88,6 +120,17 @@ KNOWN_FINDINGS = [
      "what": "DisconnectTip/updateHints skip requests whose historical rescan is still pending, so their persisted hint stays above the new tip; if the notifier stops before the rescan is answered the stale-high hint survives and a confirmation re-mined below it is missed by the next registration"},
     {"property": "C14", "code": "hint-frozen-pending-rescan", "sig": "spend", "status": "open",
      "what": "DisconnectTip/updateHints skip requests whose historical rescan is still pending, so their persisted hint stays above the new tip; if the notifier stops before the rescan is answered the stale-high hint survives and a spend re-mined below it is missed by the next registration"},
+    # --- found by the backend-glue arms (replays findings/F7-*.json, F8-*.json); PROPOSED, not yet in /verif/known_findings.json
+    {"property": "C14", "code": "rewind-adopts-foreign-best", "sig": "conf", "status": "open",
+     "what": "chainntnfs.RewindChain (interface.go:582-605) takes the new best block's hash from chainConn.GetBlockHash(height-1) on the backend's CURRENT chain instead of the parent of the block it disconnects; after a >=2-deep reorg (bitcoind has already switched branches) the dispatcher so adopts a block the TxNotifier never saw; if the next disconnect is then lost (one transient RPC error in RewindChain, or one missed BlockDisconnected) HandleMissedBlocks (interface.go:631-650) finds bestBlock.Hash on the active chain, rewinds nothing, and the stale block stays under the TxNotifier for good: Confirmed for a block that is not on the active chain without NegativeConf, confirmations in the replacing block never reported"},
+    {"property": "C14", "code": "rewind-adopts-foreign-best", "sig": "spend", "status": "open",
+     "what": "same root cause as rewind-adopts-foreign-best/conf (RewindChain adopts the hash at height-1 of the backend's current chain, HandleMissedBlocks then sees nothing to rewind), for spends: Spend kept for a stale block without Reorg, spend in the replacing block never reported, hint advanced past it; can end in a nil-pointer panic in ConnectTip/NotifyHeight when the spending tx is seen again"},
+    {"property": "C14", "code": "backend-never-catches-up", "sig": "stale-best-after-missed-blocks-rewind", "status": "open",
+     "what": "bitcoindnotify/bitcoind.go:412-435 (same flow btcdnotify/btcd.go:467-489): the best block returned by HandleMissedBlocks is only stored on error; when it rewound the TxNotifier successfully and the first handleBlockConnected of the catch-up fails (GetBlock RPC error, bitcoind.go:649) b.bestBlock stays at the reorged-out block ABOVE the TxNotifier's height: every later RewindChain/HandleMissedBlocks starts with DisconnectTip(bestBlock.Height) -> 'received blocks out of order', no block is ever connected again, clients hear nothing more (found in the simulator's mirror of that loop; the cited lines have the same control flow)"},
+    {"property": "C14", "code": "catch-up-mixes-branches", "sig": "conf", "status": "open",
+     "what": "bitcoindnotify/bitcoind.go:406-444 + chainntnfs.HandleMissedBlocks/getMissedBlocks (interface.go:659, :680-699): when a BlockConnected notification is handled after the backend has switched branches again, the gap is filled by HEIGHT from the backend's current chain and the announced (meanwhile reorged-out) block is then connected on top without checking that its PrevBlock is the last block connected: the TxNotifier is fed a sequence that is no chain (the same tx in two of 'its' blocks); when the stale block is disconnected later it clears the details of the request although the tx is still confirmed in the lower, active block: Confirmed retracted for good / hint advanced past the confirmation (needs delayed notifications plus a lost notification or RPC error; rare)"},
+    {"property": "C14", "code": "catch-up-mixes-branches", "sig": "spend", "status": "open",
+     "what": "same root cause as catch-up-mixes-branches/conf, for spends: the Spend of the active block is retracted by the Reorg for the stale block connected on top of it and never re-sent; spend hint advanced past the spend"},
     # only reachable in the faulty arm when the group was not flagged 'frozen' first; kept as a net
     {"property": "C14", "code": "hint-above-event", "sig": "after-fault", "status": "open", "what": "hint above the event after a lost hint write (see hint-frozen-pending-rescan)"},
     {"property": "C14", "code": "confirmed-not-told", "sig": "after-fault", "status": "open", "what": "confirmation missed after a lost hint write (see hint-frozen-pending-rescan)"},
